@@ -26,7 +26,8 @@ func registry() []PropSpec {
 				{Pkg: pkgTracer, Func: "H15c_q", Unwind: 8, Note: "tracingHTTP2Conn.Read/Write hand exactly the bytes returned / given to the frame tracer of their direction, for n in 0..4 and nil / error / timeout error (also n>0 together with an error), client and server side"},
 				{Pkg: pkgTracer, Func: "H15b_q", Unwind: 30, CaseGen: c15Cases(3), CaseNote: "case split: declared payload length of each of 2 frames (0..3) and every partition of the stream into 3 chunks; flags, stream ids and payload bytes symbolic", Note: "http2FrameTracer.trace (response direction): 2 frames of an unknown type, state checked after every chunk"},
 				{Pkg: pkgTracer, Func: "H15r_q", Unwind: 12, Note: "http2RetryCollector: every well-formed history of <=5 operations (stream starts, is refused, completes for good, retry timer fires, connection dies) on two test names; the 3 s retry timer is a stub whose firing is an operation"},
-				{Pkg: pkgTracer, Func: "H15g_q", Unwind: 12, UnwindFor: map[string]int{"vModelCanonicalKey": 24, "vModelToLower": 24, "cancel$1": 40, "cancel": 40}, Note: "tracingHTTP2Conn.handleFrame (server side): every well-formed sequence of <=4 decoded frames on two streams - client HEADERS (open / trailers), server HEADERS (response / trailers), RST_STREAM from either side, GOAWAY with last stream id 0/1/3/5 - with END_STREAM symbolic"},
+				{Pkg: pkgTracer, Func: "H15d_q", Unwind: 12, UnwindFor: map[string]int{"vModelCanonicalKey": 24, "vModelToLower": 24, "cancel$1": 60, "cancel": 60}, Note: "server-side connection: request HEADERS, optional response HEADERS, response-direction DATA (handed to the stream's response data tracer as handleFrame does), then GOAWAY(0) / connection error / RST_STREAM"},
+				{Pkg: pkgTracer, Func: "H15g_q", Unwind: 12, UnwindFor: map[string]int{"vModelCanonicalKey": 24, "vModelToLower": 24, "cancel$1": 60, "cancel": 60}, Note: "tracingHTTP2Conn.handleFrame (server side): every well-formed sequence of <=4 decoded frames on two streams - client HEADERS (open / trailers), server HEADERS (response / trailers), RST_STREAM from either side, GOAWAY from the server with last stream id 0/1/3/5 or from the client - with END_STREAM symbolic"},
 			},
 			Stubs: []string{"emitFrame (http2.Framer + HPACK) replaced by a frame counter in the engine; natively the real Framer parses the frames (unknown type, ignored by the connection tracer)", "http2.ReadFrameHeader = 9-byte big-endian model", "bytes.Buffer modelled on its fields"},
 			Out:   []string{"HPACK, http2.Framer, attribution of frames to streams (handleFrame), GOAWAY / retry collector timers, request direction with the client preface"},
@@ -139,6 +140,7 @@ func registry() []PropSpec {
 			ID: "C02",
 			Quick: []HarnessSpec{
 				{Pkg: pkgCC, Func: "H02a_q", Unwind: 8, Note: "populateExpectedResponse: response definition carried by request message 0, 1 or 2 (only the first one counts, as in the reference servers); stream type 0..6 (incl. unspecified/out of range), 0..3 request messages of one of 4 types or undecodable, response definition present or not, 0..3 response_data items, error present or not, unary response nothing/data/error, expected response preset or not"},
+				{Pkg: pkgCC, Func: "H02n_q", Unwind: 8, UnwindFor: map[string]int{"vModelPathJoin": 12, "expandCases": 40, "expandSuite": 40, "populateExpectedResponses": 40, "groupTestCases": 40}, NoDedupe: true, Note: "newTestCaseLibrary on a suite whose one test case has a request or none"},
 			},
 			Stubs: []string{"anypb UnmarshalNew / New are contract stubs (table lookup); natively real Any values are used"},
 			Out:   []string{"agreement of the derived expectation with the reference peers (needs the whole RPC stack: same reason as C01)", "YAML/JSON parsing of suites"},
